@@ -12,9 +12,11 @@ def undo():
 def run(names, checks, tag):
     st = subprocess.run(["git", "-C", "/repo", "status", "--porcelain"], capture_output=True, text=True).stdout.strip()
     if st: print("refusing: /repo is not clean:\n" + st); return None
-    for n in names:
+    for n in list(names):
         r = subprocess.run(["git", "-C", "/repo", "apply", os.path.join(ROOT, "harmless", n, "patch.diff")], capture_output=True, text=True)
         if r.returncode != 0:
+            if "--greedy" in sys.argv:
+                print("patch %s skipped: does not apply on top of the others / the current tree" % n); names.remove(n); continue
             print("patch %s does not apply (%s)" % (n, r.stderr.strip()[:200])); undo(); return None
     out = os.path.join(ROOT, "work", "harmruns", tag); os.makedirs(out, exist_ok=True)
     res = {}
